@@ -102,6 +102,8 @@ def make (c):
     if rng.random () < 0.45:
         kind = str (rng.choice (['z', 'rlc', 'trap', 'lap', 'skin', 'skin']))
         where = [['all']] if rng.random () < 0.3 else [[int (rng.integers (1, 4))]]
+        if c ['i'] % 4 == 1:
+            where = where + [[int (rng.integers (1, 4))]] + where [-1:]       # one load attached several times, twice to one pulse
         if kind == 'z':
             loads.append (dict (k = 'z', z = [float (10 ** rng.uniform (0, 3)), float (rng.uniform (-300, 300))], att = where))
         elif kind == 'rlc':
